@@ -83,3 +83,12 @@ Proof. exact c08_code_literal_fallback. Qed.
 Check c08_response_code_literal_refuted :
   exists rest v, parse c08_witness = ROk rest v 23 /\ rest = [255; 254] ++ bs ")] x" ++ [13; 10].
 Print Assumptions c08_response_code_literal_refuted.
+
+(* the functions and closures that Natives.v models by hand are, token for token, the ones the models were written for *)
+From TI Require NativeSources.
+Theorem c08_hand_models_match_source :
+  gen_native_fns = NativeSources.modelled_fn_sources /\ gen_native_actions = NativeSources.modelled_action_sources.
+Proof. exact NativeSources.hand_models_match_source_lemma. Qed.
+Check c08_hand_models_match_source :
+  gen_native_fns = NativeSources.modelled_fn_sources /\ gen_native_actions = NativeSources.modelled_action_sources.
+Print Assumptions c08_hand_models_match_source.
